@@ -18,7 +18,7 @@ VARIABLES pidx,   \* which program this behaviour runs
 ovars == <<vars, pidx, olog>>
 
 NoCfg == [cap |-> Unb, strat |-> "restart", stream |-> FALSE, tmo |-> -1, failto |-> FALSE, owning |-> FALSE,
-          sscr |-> <<>>, pscr |-> <<>>, fscr |-> <<>>, ty |-> "0", items0 |-> 0, ended0 |-> FALSE, iscr |-> <<>>]
+          sscr |-> <<>>, pscr |-> <<>>, fscr |-> <<>>, ty |-> "0", items0 |-> 0, ended0 |-> FALSE, iscr |-> <<>>, tscr |-> <<>>]
 OpOf(r) == [op |-> r.op, h |-> r.h, nh |-> r.nh, a |-> r.a, scr |-> r.scr, d |-> r.d, to |-> r.to,
             ty |-> r.ty, nh2 |-> r.nh2, h2 |-> r.h2,
             cfg |-> IF "cfg" \in DOMAIN r THEN r.cfg ELSE NoCfg]
